@@ -31,6 +31,8 @@ fn spaces(tier: Tier) -> Vec<Space> {
             Space { alpha: "CASC", depth: 3 },
             Space { alpha: "TERN", depth: 2 },
             Space { alpha: "TERN", depth: 3 },
+            Space { alpha: "CASE", depth: 2 },
+            Space { alpha: "CASE", depth: 3 },
             Space { alpha: "MICRO", depth: 3 },
             Space { alpha: "BIND", depth: 2 },
             Space { alpha: "CORE", depth: 3 },
@@ -55,6 +57,8 @@ fn spaces(tier: Tier) -> Vec<Space> {
             Space { alpha: "CASC", depth: 3 },
             Space { alpha: "TERN", depth: 2 },
             Space { alpha: "TERN", depth: 3 },
+            Space { alpha: "CASE", depth: 2 },
+            Space { alpha: "CASE", depth: 3 },
             Space { alpha: "CORE", depth: 3 },
             Space { alpha: "A0", depth: 3 },
             Space { alpha: "MICRO", depth: 4 },
